@@ -1,6 +1,7 @@
 package main
 
 import (
+	"fmt"
 	"go/ast"
 	"go/types"
 	"golang.org/x/tools/go/types/typeutil"
@@ -10,8 +11,8 @@ import (
 func init() {
 	propertyRules["C13"] = []ruleFn{ruleGSilent}
 	propertyExplain["C13"] = "All-paths guard rule G-SILENT: for every call of Config.Broadcast, Block.Sign and PreBlock.SetData in package dbft, on every path snapshot from every API entry (Start, Reset, OnReceive, OnTimeout, OnTransaction, OnNewTransaction) the fact not-watch-only (MyIndex >= 0 and !Config.WatchOnly()) is established before the call; residual requirements are pushed to all callers (backward demand over the resolved call graph). Decides silence of watch-only nodes; does not decide that other validators progress."
-	propertyRules["C14"] = []ruleFn{ruleNoWallclock, ruleInstantProv, ruleTimestamp}
-	propertyExplain["C14"] = "Ownership rule O-NO-WALLCLOCK: no function of package dbft references a wall-clock reading function of package time (resolved by types.Func identity, calls and method values alike). Provenance rule P-INSTANT: every time.Time value stored in Context/DBFT and every UnixNano() feeding a timestamp originates in Config.Timer.Now(). Decides that time enters only through the injected timer; the equality of two shifted runs is the behavioural consequence and is not re-established dynamically."
+	propertyRules["C14"] = []ruleFn{ruleNoWallclock, ruleInstantProv, ruleInstantSet, ruleTimestamp}
+	propertyExplain["C14"] = "Ownership rule O-NO-WALLCLOCK: no function of package dbft references a wall-clock reading function of package time (resolved by types.Func identity, calls and method values alike). Provenance rule P-INSTANT: every time.Time value stored in Context/DBFT and every UnixNano() feeding a timestamp originates in Config.Timer.Now(); P-INSTANT-SET: a stored instant is used only where it is known to have been recorded (the zero time.Time is an absolute date). Decides that time enters only through the injected timer; the equality of two shifted runs is the behavioural consequence and is not re-established dynamically."
 }
 
 // G-SILENT (C13)
@@ -379,4 +380,40 @@ func containsNode(root ast.Node, target ast.Node) bool {
 		return !found
 	})
 	return found
+}
+
+// P-INSTANT-SET: a stored instant that was never recorded is the zero time.Time, an absolute point of the calendar: a
+// duration measured from it (Sub, comparisons) depends on the injected clock's epoch, so a constant clock shift changes
+// the requested timer durations. Every use of a stored instant other than IsZero() is therefore made only where the
+// field is known to be set (path fact !X.IsZero()).
+func ruleInstantSet(c *RC) *RuleResult {
+	r := &RuleResult{Rule: "P-INSTANT-SET", Kind: "GUARD", Doc: "a stored instant (time.Time field of Context/DBFT) is used in Sub/comparisons/UnixNano only where it is known to have been recorded (!X.IsZero() on the path): the zero Time is an absolute date, not an injected instant"}
+	n := 0
+	for _, fn := range c.Prog.dbftFuncs() {
+		for _, s := range c.A.FnSites[fn] {
+			if s.Kind != "call" || !strings.HasPrefix(s.Callee, "ext:time.Time.") || s.Callee == "ext:time.Time.IsZero" {
+				continue
+			}
+			for _, sn := range s.Snaps {
+				ops := append([]*Term{sn.Recv}, sn.Args...)
+				for _, o := range ops {
+					if o == nil || o.K != KField {
+						continue
+					}
+					n++
+					r.Sites++
+					iz := mkAtom("b", mkTerm(KCall, "time.Time.IsZero", o), nil)
+					if v, ok := sn.F.value(iz); ok && !v {
+						r.ok(fmt.Sprintf("%s: %s of %s under !IsZero()", fn.Name, strings.TrimPrefix(s.Callee, "ext:"), o.S))
+						continue
+					}
+					r.fail(fn.Name+"/unset-instant:"+o.S, c.Prog.Pos(s.Node), fmt.Sprintf("%s is applied to the stored instant %s on path {%s} where it may never have been recorded (zero time.Time): the result depends on the absolute epoch of the injected clock, so two runs with clocks differing by a constant offset request different timer durations", strings.TrimPrefix(s.Callee, "ext:"), o.S, sn.Trail))
+				}
+			}
+		}
+	}
+	if n == 0 {
+		r.unresolved("use of a stored instant (Sub/compare on a time.Time field)")
+	}
+	return r
 }
